@@ -63,6 +63,14 @@ def dot(t1, t2, k=None):
         else:
             return torch.einsum("sr,ar->sar", (M, core))
 
+    if isinstance(t1, tn.Tensor) != isinstance(t2, tn.Tensor) and (
+        k is not None or len(t1.shape) != len(t2.shape)
+    ):
+        # Partial contraction with one dense operand: compress it (exactly) instead of flattening both
+        if isinstance(t1, tn.Tensor):
+            t2 = tn.Tensor(t2)
+        else:
+            t1 = tn.Tensor(t1)
     t1, t2 = _process(t1, t2)
     if isinstance(t1, torch.Tensor) and isinstance(t2, torch.Tensor):
         return t1.flatten().dot(t2.flatten())
